@@ -193,6 +193,36 @@ def check_fn(c):
             short = name.split("::")[-1]
             if (name.endswith("Index<I>>::index") or name.endswith("IndexMut<I>>::index_mut")) and len(args) == 2:
                 ity = ft.tyof(args[1]) or ""
+                rng = args[1]
+                while rng[0] in ("ref", "deref"):
+                    rng = rng[2] if rng[0] == "ref" else rng[1]
+                if ity.startswith("std::ops::Range<usize>") and rng[0] == "agg" and rng[2].startswith("std::ops::Range::") and len(rng[3]) == 2:
+                    # v[a..b]: needs a <= b and b <= len
+                    a_, b_ = rng[3]
+                    la_, lb_ = c.linear(a_, b), c.linear(b_, b)
+                    ok1 = False
+                    if la_ is not None and lb_ is not None:
+                        co = dict(la_[0])
+                        for k_, v_ in lb_[0].items():
+                            co[k_] = co.get(k_, 0) - v_
+                        ok1 = c.prove((co, la_[1] - lb_[1]), b)           # a - b <= 0
+                        if not ok1:
+                            av_a, av_b = c.av(a_, b), c.av(b_, b)
+                            ok1 = av_a[0] == "i" and av_b[0] == "i" and av_a[2] <= av_b[1]
+                    ok2 = False
+                    len_atom = c.len_atom(args[0], b)
+                    if lb_ is not None and len_atom is not None:
+                        co = dict(lb_[0])
+                        co[len_atom] = co.get(len_atom, 0) - 1
+                        ok2 = c.prove((co, lb_[1]), b)                      # b - len <= 0
+                    if not ok2:
+                        base = c.av(args[0], b)
+                        base = base[1] if base[0] == "r" else base
+                        av_b = c.av(b_, b)
+                        ok2 = base[0] == "v" and base[1][0] == "i" and av_b[0] == "i" and av_b[2] <= base[1][1]
+                    emit("IDX", "%s[%s..%s]" % (render(ft, args[0]), render(ft, a_), render(ft, b_)), ok1 and ok2,
+                         "range start <= end: %s, end <= length: %s" % (ok1, ok2), t["span"], [a_, b_], None, args)
+                    continue
                 if ity != "usize":
                     emit("IDX", "%s[%s]" % (render(ft, args[0]), render(ft, args[1])), False, "index of type %s (range/slice indexing) is not modelled" % ity, t["span"], args, "failed")
                     continue
@@ -221,9 +251,19 @@ def check_fn(c):
             elif name.endswith("Vec::with_capacity") or name.endswith("vec::from_elem"):
                 n = args[0] if name.endswith("with_capacity") else args[1]
                 v = c.av(n, b)
-                # a capacity that is a wrapped negative number (>= 2^63) aborts the process
-                ok = v[0] == "i" and v[2] < (1 << 62)
-                emit("ALLOC", "%s(%s)" % (short, render(ft, n)), ok, "requested size %s" % show(v), t["span"], [n])
+                # a request of more than isize::MAX bytes (e.g. a wrapped negative count) panics / aborts: the count
+                # times the element size (the compiler's layout) must stay below 2^63; unknown element type: 2^62 elements
+                vty = ft.fn["locals"][t["dest"]["local"]]["ty"] if not t["dest"]["proj"] else ""
+                esz = None
+                if vty.startswith("std::vec::Vec<") and vty.endswith(">"):
+                    esz = size_of(split_generics(vty)[1][0], c.facts) if split_generics(vty)[1] else None
+                if esz is not None:
+                    ok = v[0] == "i" and v[2] * max(1, esz) <= (1 << 63) - 1
+                    why_ = "requested %s elements of %d bytes" % (show(v), esz)
+                else:
+                    ok = v[0] == "i" and v[2] < (1 << 62)
+                    why_ = "requested size %s" % show(v)
+                emit("ALLOC", "%s(%s)" % (short, render(ft, n)), ok, why_, t["span"], [n])
 
 
 def lift_to_callers(c, goal):
